@@ -198,7 +198,17 @@ REASONS = {"unspecified": 0, "keyCompromise": 1, "cACompromise": 2, "affiliation
            "cessationOfOperation": 5, "certificateHold": 6, "removeFromCRL": 8, "privilegeWithdrawn": 9, "aACompromise": 10}
 
 
+_tbs_cache = {}
+
+
 def _tbs_fields(spec):
+    k = json.dumps(spec, sort_keys=True)
+    if k not in _tbs_cache:
+        _tbs_cache[k] = _tbs_fields_uncached(spec)
+    return _tbs_cache[k]
+
+
+def _tbs_fields_uncached(spec):
     der = X.pem_to_der(X.read(X.cert(spec)))
     t, h, l = X.tlv(der)
     tbs = X.children(der[h:h + l])[0][1]
